@@ -498,6 +498,15 @@ def lexer_targets(kb):
         t = Target(cname, "h_" + cname, replace=sorted(rep))
         t.expect_loops = kb.nloops.get(cname, 0) > 0
         kb.targets.append(t)
+    if kb.prop == "C20":
+        c = chai2c.contracts_for(load_contracts("K2_lexers.contracts"), "lemma_Eol_coords", kb.prop)
+        kb.emit_stub("bool lemma_Eol_coords(Parser *self, bool t_eos)", c.fn, "lemma_Eol_coords", body=" return Parser_Eol_(self, t_eos); ")
+        kb.add('void h_lemma_Eol_coords(void) { Parser *self; bool t_eos = verif_nondet_bool(); lemma_Eol_coords(self, t_eos); VERIF_CANARY("lemma_Eol_coords returns normally"); }')
+        t = Target("lemma_Eol_coords", "h_lemma_Eol_coords", loops=False, unwind=4,
+                   bounded_note="the line end is at most the two bytes CR LF: the loops of Symbol_ and operator+ are fully unwound (unwinding assertions on) - complete")
+        t.complete = True
+        kb.targets.append(t)
+        kb.functions.append("lemma_Eol_coords")
     for cname in ("Static_String_size", "Static_String_c_str"):
         kb.add("void h_%s(void) { Static_String *s; %s(s); VERIF_CANARY(\"returns\"); }" % (cname, cname))
         kb.targets.append(Target(cname, "h_" + cname))
